@@ -40,14 +40,14 @@ var syncCalls = map[string]bool{
 }
 
 var socketRewrites = map[string]map[string]bool{
-	"net":  {"Dial": true, "Listen": true, "ListenUDP": true},
+	"net":  {"Dial": true, "Listen": true, "ListenUDP": true, "ResolveTCPAddr": true, "ResolveUDPAddr": true},
 	"tls":  {"Dial": true, "Listen": true},
 	"dtls": {"Dial": true, "Listen": true},
 }
 
 // Calls that would create a real socket and that the rewrite does not know.
 var socketForbidden = map[string][]string{
-	"net":  {"Dial", "Listen", "ListenUDP", "DialTimeout", "DialTCP", "DialUDP", "DialIP", "DialUnix", "ListenTCP", "ListenPacket", "ListenIP", "ListenUnix", "ListenUnixgram", "ListenMulticastUDP", "FileConn", "FileListener", "FilePacketConn"},
+	"net":  {"Dial", "Listen", "ListenUDP", "DialTimeout", "DialTCP", "DialUDP", "DialIP", "DialUnix", "ListenTCP", "ListenPacket", "ListenIP", "ListenUnix", "ListenUnixgram", "ListenMulticastUDP", "FileConn", "FileListener", "FilePacketConn", "LookupHost", "LookupIP", "LookupAddr", "LookupCNAME", "ResolveIPAddr"},
 	"tls":  {"Dial", "Listen", "DialWithDialer"},
 	"dtls": {"Dial", "Listen", "DialWithContext", "NewListener"},
 }
